@@ -93,9 +93,17 @@ func RandTree(r *rand.Rand, o TreeOpts, d int) ref.Value {
 	}
 	switch k {
 	case 0:
+		switch r.IntN(4) {
+		case 0:
+			// magnitudes where a detour through float64 or an exponent format shows
+			big := []int64{999999, 1000000, 1000001, 12345678, 1 << 31, 1<<53 - 1, 1 << 53, 1<<53 + 1, 999999999999999999, 1<<63 - 1, -1 << 63, -1000000, -(1<<53 + 1)}
+			return big[r.IntN(len(big))]
+		case 1:
+			return r.Int64N(1<<62) - 1<<61
+		}
 		return int64(r.IntN(2000) - 1000)
 	case 1:
-		return []float64{0, 1.5, -2.25, 1e21, 1e-7, 123456789.125, -0.0}[r.IntN(7)]
+		return []float64{0, 1.5, -2.25, 1e21, 1e-7, 123456789.125, -0.0, 1e6, 1234567, 1e20, 123456789012345678, 0.000001, 1e-5, 100, -1e6, 3}[r.IntN(16)]
 	case 2:
 		return r.IntN(2) == 0
 	case 3, 4:
